@@ -12,8 +12,9 @@ pushes ONE dimension across the thresholds 8 / 16 / 32 / 64 / 128 / 256 (1000 wh
              documented rejection)
     width    statements of one block (top level, a loop body, a top-level { } block): the structure sits at the
              positions t-1, t, t+1 and at both ends; flat subcircuit numbers >= 10 / 100 / 256
-    gates    inside ONE subcircuit: number of gate statements, iterations of a loop, depth of nested loops, width of
-             a parallel block (8..14 qubits, emulated), many statements on one `;`-separated line
+    gates    inside ONE subcircuit: number of gate statements, iterations of a loop (bodies of period 2 and 3 - X, SWAP,
+             ROT3 - so that a shortcut modulo a power of two shows), depth of nested loops, width of a parallel block
+             (8..14 qubits, emulated), many statements on one `;`-separated line
     iters    loop counts (literal, let-valued, overridden in both directions) around one / two subcircuits, outside
              and inside another loop
     macros   chains of macros calling each other (<= 100 must work), many macro definitions of which the ones at
@@ -25,8 +26,10 @@ pushes ONE dimension across the thresholds 8 / 16 / 32 / 64 / 128 / 256 (1000 wh
     qubits   registers of 8..14 qubits in the emulator, 16..20 for the output-list parser
     ident    legal but unusual spellings for lets / registers / aliases / macros / macro parameters / gates: dotted
              names, pairs that differ by a dotted prefix or suffix, dunder names, prefixes / extensions / case
-             variants / dotted uses of keywords and of prepare_all / measure_all, gate names as let names, names of
-             256..5000 characters; always several lets with DIFFERENT values, so that a confusion shows
+             variants / dotted uses of keywords and of prepare_all / measure_all (also as NATIVE one-qubit gates:
+             prepare_all_x, prepare_al, measure_all_, measure_all.x, loop.X ... see EXTRA_GATES), gate names as let
+             names, names of 255..5000 characters that agree on their first 253+ characters; the first two loop
+             counts are such a pair and have DIFFERENT values, overrides address one of the two
     outs     small programs on >= 4 qubits whose outputs are values like 10, 11, 100, 101 and the extremes
 
 Every case also draws an ENTRY configuration (the defaults dimension):
@@ -66,14 +69,17 @@ DEFAULT_DRIVER = "/verif/lean/.lake/build/bin/jaqal-model"
 CORE_ORACLES = ("scale_terminates", "scale_accepted", "scale_emulator_visits", "scale_output_list_visits",
                 "scale_output_kinds", "scale_own_readouts", "scale_outcome_possible")
 ORACLES = CORE_ORACLES + ("scale_scope_macro_subcircuit",)
-STREAMS = ("depth", "width", "gates", "iters", "macros", "alias", "header", "qubits", "ident", "outs")
+STREAMS = ("depth", "width", "ident", "gates", "iters", "macros", "alias", "header", "qubits", "ident", "outs")
 TH = (8, 16, 32, 64, 128, 256)
 ODD = (20, 33, 34, 40, 49, 65, 100, 200)
 MAX_VISITS = 3000
 EMU_MAX_QUBITS = 14
 DEEP_REJECT_FROM = 120        # nesting / chain length from which "Program is nested too deeply" is a legitimate answer
 NP_INT_KINDS = ("int8", "int16", "int32", "int64", "uint8", "uint16", "uint32", "uint64", "intp")
-FLIP = {"X": 1, "Y": 1, "X.cal": 1, "__X": 1, "Z": 0, "cal.X": 0, "I_X": 0, "S": 0}
+EXTRA_GATES = (("cal.X", "U_Z"), ("X.cal", "U_X"), ("__X", "U_Y"), ("prepare_all_x", "U_X"), ("prepare_all.z", "U_Z"), ("prepare_al", "U_X"),
+               ("measure_all_", "U_Z"), ("measure_all.x", "U_X"), ("measure_al", "U_Z"), ("subcircuit_", "U_X"), ("loop.X", "U_X"))
+FLIP = {"X": 1, "Y": 1, "Z": 0, "I_X": 0, "S": 0}
+FLIP.update({nm: int(u != "U_Z") for nm, u in EXTRA_GATES})
 _real = {}
 _gates = {}
 
@@ -86,17 +92,17 @@ def _root():
 
 
 def gate_set(kind="all"):
-    """the injected gate set, extended by gates with dotted / dunder names: cal.X is a Z (no flip), X.cal an X,
-    __X a Y.  kind "a" / "b" split it in two (for two usepulses statements)."""
+    """the injected gate set, extended by one-qubit gates with dotted / dunder / keyword-like names (EXTRA_GATES: cal.X is
+    a Z (no flip), X.cal an X, __X a Y, prepare_all_x an X, measure_all_ a Z, ...).  kind "a" / "b" split it in two (for two usepulses statements)."""
     if not _gates:
         if _root() not in sys.path:
             sys.path.insert(0, _root())
         from harness import gates as HG
         from jaqalpaq.core import GateDefinition, Parameter, ParamType
         g = dict(HG.GATES_IDLE)
-        for nm, u in (("cal.X", HG.U_Z), ("X.cal", HG.U_X), ("__X", HG.U_Y)):
-            g[nm] = GateDefinition(nm, [Parameter("q", ParamType.QUBIT)], ideal_unitary=u)
-        a = {k: v for k, v in g.items() if k in ("X", "Y", "Z", "S", "SX", "cal.X", "X.cal", "__X", "I_X")}
+        for nm, u in EXTRA_GATES:
+            g[nm] = GateDefinition(nm, [Parameter("q", ParamType.QUBIT)], ideal_unitary=getattr(HG, u))
+        a = {k: v for k, v in g.items() if k in ("X", "Y", "Z", "S", "SX", "I_X") or k in FLIP}
         _gates.update(all=g, a=a, b={k: v for k, v in g.items() if k not in a})
     return _gates[kind]
 
@@ -122,6 +128,8 @@ def _load():
     from jaqalpaq.error import JaqalError
     # a directory with three pulse modules for `from .NAME usepulses *`
     d = tempfile.mkdtemp(prefix="c08scale_")
+    import atexit, shutil
+    atexit.register(shutil.rmtree, d, True)
     me = "harness.agents.c08_scale"
     for mod, kind in (("c08s_all", "all"), ("c08s_a", "a"), ("c08s_b", "b")):
         os.makedirs(os.path.join(d, mod))
@@ -152,7 +160,7 @@ def _alarm(*a):
 #   macro kind "inner": body = inner items;  kind "top": body = top items (it holds subcircuits)
 # top items:    ["sub", form, inner]   form "sc" | "pm"
 #               ["loop", count, items] | ["blk", items] | ["mcall", name, [count, ...]]
-# inner items:  ["g", gate, q] | ["cx", q, q] | ["iloop", count, inner] | ["par", [inner]] | ["line", [inner]]
+# inner items:  ["g", gate, q] | ["cx", q, q] | ["rot3", q, q, q] | ["swap", q, q] | ["iloop", count, inner] | ["par", [inner]] | ["line", [inner]]
 #               ["call", name, [["q", q] | ["c", count], ...]]
 #   q: [name, idx]   name = register / alias (idx int | let name, or None for a single-qubit alias) or a macro parameter (idx None)
 #   count: int | let name | macro parameter
@@ -245,6 +253,12 @@ class Ref:
                 c, t = self.qpos(it[1], bind), self.qpos(it[2], bind)
                 if st[c] is None: st[t] = None
                 elif st[c] == 1 and st[t] is not None: st[t] = 1 - st[t]
+            elif k == "rot3":      # ROT3 a b c: the bit of a moves to b, b to c, c to a
+                a, b, c = (self.qpos(q, bind) for q in it[1:4])
+                st[a], st[b], st[c] = st[c], st[a], st[b]
+            elif k == "swap":
+                a, b = self.qpos(it[1], bind), self.qpos(it[2], bind)
+                st[a], st[b] = st[b], st[a]
             elif k == "iloop":
                 n = self.val(it[1], bind)
                 if it[2]:
@@ -271,6 +285,8 @@ def inner_text(inner, ind, sep="\n"):
         k = it[0]
         if k == "g": out.append(f"{ind}{it[1]} {q_text(it[2])}")
         elif k == "cx": out.append(f"{ind}CX {q_text(it[1])} {q_text(it[2])}")
+        elif k == "rot3": out.append(f"{ind}ROT3 {q_text(it[1])} {q_text(it[2])} {q_text(it[3])}")
+        elif k == "swap": out.append(f"{ind}SWAP {q_text(it[1])} {q_text(it[2])}")
         elif k == "iloop": out.append(f"{ind}loop {it[1]} {{\n" + inner_text(it[2], ind + " ") + f"\n{ind}}}")
         elif k == "par": out.append(f"{ind}< " + " | ".join(inner_text([g], "") for g in it[1]) + " >")
         elif k == "line": out.append(ind + "; ".join(inner_text([g], "") for g in it[1]))
@@ -425,7 +441,16 @@ def stream_gates(rng, thorough):
             lets = [["big", n]]; c = "big"
             if rng.random() < 0.5:
                 lets = [["big", rng.choice([0, 1, 2])]]; override = {"big": n}
-        body = [["iloop", c, [["g", "X", ["r", rng.randrange(nq)]]] + ([["g", "Y", ["r", rng.randrange(nq)]]] if rng.random() < 0.3 else [])]]
+        r = rng.random()
+        if r < 0.45:       # a body of period 3 (a power-of-two shortcut does not preserve it)
+            nq = 3
+            qs = [0, 1, 2]; rng.shuffle(qs)
+            body = [["g", "X", ["r", rng.randrange(3)]], ["iloop", c, [["rot3"] + [["r", q] for q in qs]]]]
+        elif r < 0.6:
+            nq = rng.choice([2, 3])
+            body = [["g", "X", ["r", 0]], ["iloop", c, [["swap", ["r", 0], ["r", 1]]]]]
+        else:
+            body = [["iloop", c, [["g", "X", ["r", rng.randrange(nq)]]] + ([["g", "Y", ["r", rng.randrange(nq)]]] if rng.random() < 0.3 else [])]]
         dim = {"inner_iters": n}
     elif t < 0.8:        # deep loops inside the subcircuit
         d = pick_size(rng, 129)
@@ -539,7 +564,7 @@ def stream_alias(rng, thorough):
     lets = []
     if t < 0.55:         # a chain
         k = pick_size(rng, 130 if thorough else 101, lo=7)
-        if not thorough and k > 66 and rng.random() < 0.6: k = rng.choice([31, 32, 33, 63, 64, 65])
+        if k > 66 and rng.random() < (0.4 if thorough else 0.6): k = rng.choice([31, 32, 33, 63, 64, 65])       # cubic cost
         maps, prev, size = [], "r", nq
         narrow = set(rng.sample(range(k), min(k, rng.randint(0, 3))))
         for i in range(k):
@@ -593,10 +618,12 @@ def stream_header(rng, thorough):
         j = rng.choice(ms); lets[j][1] = rng.randrange(nq); idx = f"c{j}"; ms = [x for x in ms if x != j]
     counts = [f"c{j}" for j in rng.sample(ms, min(len(ms), rng.randint(2, 5)))]
     override = None
+    decl = dict((a, b) for a, b in lets)
+    other = lambda nm: rng.choice([v for v in (0, 1, 2, 3) if v != decl[nm]])
     r = rng.random()
-    if r < 0.25: override = {rng.choice(counts): rng.choice([0, 1, 2, 3])}
-    elif r < 0.45: override = {nm: rng.choice([0, 1, 2, 3]) for nm in counts}
-    elif r < 0.6: override = {nm: (rng.choice([0, 1, 2, 3]) if nm in counts else v) for nm, v in lets}
+    if r < 0.2: nm = rng.choice(counts); override = {nm: other(nm)}
+    elif r < 0.35: override = {nm: other(nm) for nm in counts}
+    elif r < 0.6: override = {nm: (other(nm) if nm in counts else v) for nm, v in lets}
     elif r < 0.7:      # an entry for every let EXCEPT the ones used: they keep their declared values
         override = {nm: rng.choice([0, 5, 7]) for nm, v in lets if nm not in counts and nm != idx and nm != reg[1]}
 
@@ -646,14 +673,14 @@ DUNDER = ["__macro__", "__c10", "__r0", "__in_context__", "_", "__", "___", "_0"
           "__dict__", "_r", "__loop", "__subcircuit", "__index", "_.a", "a._", "__.__"]
 GATEISH = ["X", "Y", "Z", "CX", "SX", "I_X", "cal.X", "X.cal", "__X", "x", "cx", "X_", "X.X", "I_", "I_cal.X"]
 NATIVE_NAMES = {"X", "Y", "Z", "S", "SX", "P", "PF", "CX", "CZ", "SWAP", "ISWAP", "HH", "NS", "CCX", "ROT3", "N", "prepare_all",
-                "measure_all", "cal.X", "X.cal", "__X"} | {"I_" + g for g in ("X", "Y", "Z", "S", "SX", "P", "PF", "CX", "CZ", "SWAP",
+                "measure_all"} | set(FLIP) | {"I_" + g for g in ("X", "Y", "Z", "S", "SX", "P", "PF", "CX", "CZ", "SWAP",
                                                                             "ISWAP", "HH", "NS", "CCX", "ROT3", "N")}
 DOTTED_BASE = ["x", "cal", "q", "n", "a", "b0", "v1"]
 
 
 def ident_pool(rng):
     """-> a list of distinct legal identifiers of one family (pairs that differ by a dotted prefix / suffix included)"""
-    fam = rng.choice(["dotted", "dotted", "keyword", "keyword", "dunder", "gate", "long", "mixed"])
+    fam = rng.choice(["dotted", "dotted", "keyword", "keyword", "dunder", "gate", "long", "long", "mixed"])
     if fam == "dotted":
         b = rng.sample(DOTTED_BASE, 3)
         pool = [b[0], f"{b[1]}.{b[0]}", f"{b[0]}.{b[1]}", f"{b[1]}.{b[0]}.{b[2]}", f"{b[2]}.{b[1]}.{b[0]}", b[1], f"{b[0]}.{b[0]}",
@@ -668,6 +695,18 @@ def ident_pool(rng):
     else: pool = rng.sample(KEYWORDISH, 6) + rng.sample(DUNDER, 5) + rng.sample(GATEISH, 3) + ["x", "cal.x", "x.cal"]
     pool = list(dict.fromkeys(pool))
     rng.shuffle(pool)
+    # a pair of names that differ only by a dotted prefix / suffix, one character or beyond the 255th character comes first
+    # (the two become loop counts with different values)
+    pairs = {"dotted": lambda: rng.choice([(b[0], f"{b[1]}.{b[0]}"), (b[0], f"{b[0]}.{b[1]}"), (f"{b[1]}.{b[0]}", f"{b[0]}.{b[1]}"),
+                                           (f"{b[1]}.{b[0]}", f"{b[2]}.{b[1]}.{b[0]}"), (f"{b[0]}.0", f"{b[0]}.00")]),
+             "keyword": lambda: rng.choice([("lo", "loo"), ("loop_", "loops"), ("loop.n", "n.loop"), ("let_", "lets"), ("sub", "subcircuits"),
+                                            ("subcircui", "subcircuit_"), ("prepare_al", "prepare_all_"), ("measure_al", "measure_all_"),
+                                            ("Loop", "LOOP"), ("prepare_all.x", "prepare"), ("fro", "from_")]),
+             "dunder": lambda: rng.choice([("_", "__"), ("__", "___"), ("_0", "__0"), ("__c10", "__r0"), ("_.a", "a._"), ("__macro__", "__in_context__")]),
+             "gate": lambda: rng.choice([("X", "X_"), ("X", "x"), ("cal.X", "X.cal"), ("X", "X.X"), ("I_X", "I_"), ("CX", "cx")]),
+             "long": lambda: tuple(rng.sample(pool, 2)),
+             "mixed": lambda: rng.choice([("x", "cal.x"), ("x", "x.cal"), ("cal.x", "x.cal")])}[fam]()
+    pool = list(pairs) + [x for x in pool if x not in pairs]
     return fam, pool
 
 
@@ -689,10 +728,13 @@ def stream_ident(rng, thorough):
     lo = rng.randrange(nq - 1)
     maps = [[al1, regname, ["slice", lo, nq, None]], [al2, al1, ["idx", rng.randrange(nq - lo)]]]
     macros = [[mname, params, [["iloop", params[0], [["g", "X", [params[1], None]]]]], "inner"]]
-    gate = lambda: rng.choice(["X", "X", "cal.X", "X.cal", "__X", "Y", "Z", "I_X"])
+    gate = lambda: rng.choice(["X", "X", "cal.X", "X.cal", "__X", "Y", "Z", "I_X"] + [nm for nm, _ in EXTRA_GATES])
     override = None
-    if rng.random() < 0.4:
-        override = {nm: rng.choice([0, 1, 2, 3]) for nm in rng.sample(counts, rng.randint(1, len(counts)))}
+    decl = dict(zip(counts, vals))
+    other = lambda nm: rng.choice([v for v in (0, 1, 2, 3) if v != decl[nm]])
+    r = rng.random()
+    if r < 0.45: nm = rng.choice(counts[:2]); override = {nm: other(nm)}         # ONE of the pair
+    elif r < 0.65: override = {nm: other(nm) for nm in rng.sample(counts, rng.randint(1, len(counts)))}
 
     def s():
         body = []
@@ -840,6 +882,7 @@ def gen_case(rng, stream, thorough):
         got = ref.visits()
         if got is None: continue
         want, subs = got
+        if len(want) * dim.get("depth", 0) > 12000: continue       # the walk costs visits x depth: keep deep cases cheap
         try:
             support = ref.support()
         except OverflowError:
@@ -1080,7 +1123,7 @@ def describe(case):
 def run(seed: int, n: int, driver: str = DEFAULT_DRIVER, thorough: bool = False) -> dict:
     R = _load()
     rng = random.Random(f"c08_scale:{seed}")
-    if thorough: n = n * 6
+    if thorough: n = n * 4
     oracle = {k: {"cases": 0, "failures": [], "total": 0} for k in ORACLES}
     dist = {}
     samples = []
@@ -1137,7 +1180,7 @@ def run(seed: int, n: int, driver: str = DEFAULT_DRIVER, thorough: bool = False)
         if len(case["text"]) >= 10000: bump("text_ge_10000_chars")
         if len(case["want"]) >= 2:
             distinct.add(json.dumps([case["text"], case["override"], e], sort_keys=True))
-        if len(samples) < 5 and i % len(STREAMS) == 2 * len(samples) and len(case["text"]) < 3000:
+        if len(samples) < 5 and i % len(STREAMS) == 2 * len(samples) + 1 and len(case["text"]) < 3000:
             samples.append(json.loads(json.dumps(case)))
     return {"corr": {}, "oracle": oracle, "distribution": dist, "samples": samples, "nontrivial": len(distinct)}
 
